@@ -918,11 +918,25 @@ class EscapesX(Escapes):
                 return all(self.is_number(k, x, depth + 1, integral) for x in rhs)
         return False
 
-    def may_be_complex(self, k, v):
+    def may_be_complex(self, k, v, depth=0):
+        if depth > 4:
+            return False
         if isinstance(v, ast.Call):
             c = self.callee_key(k, v)
             if isinstance(c, str) and c in self.complex_results:
                 return True
+            return False          # abs(), float(), int(), len() ... of anything is real (or raises at that call)
+        if isinstance(v, ast.Name):
+            # a local that some assignment binds directly to a possibly complex result (seeded change seeded/C14:
+            # `value = Convert2Num(tok)` ... `float(value)`)
+            rhs = self.local_rhs(k).get(v.id)
+            if rhs:
+                return any(x is not None and self.may_be_complex(k, x, depth + 1) for x in rhs)
+            return False
+        if isinstance(v, ast.UnaryOp):
+            return self.may_be_complex(k, v.operand, depth + 1)
+        if isinstance(v, ast.BinOp):
+            return self.may_be_complex(k, v.left, depth + 1) or self.may_be_complex(k, v.right, depth + 1)
         return False
 
     def subscript(self, k, n, gens, facts):
